@@ -154,8 +154,18 @@ def rand_pdu(rng, ptype=None):
 
 
 # ---- toy security context -----------------------------------------------------------------------------
-class AuthError(Exception):
+class _AuthError(Exception):
     pass
+
+
+def AuthError(msg):
+    """what a security context raises: pyspnego's contexts raise SpnegoError subclasses (a failed signature check is BadMICError),
+    and so does the toy one — code that treats SpnegoError specially must meet the same type here"""
+    try:
+        from spnego.exceptions import BadMICError
+        return BadMICError(context_msg=msg)
+    except Exception:  # noqa  (pyspnego not importable: plain exception)
+        return _AuthError(msg)
 
 
 KEY = b"key"
